@@ -26,6 +26,7 @@ pub struct LinkMeta {
 #[derive(Clone, Debug)]
 pub struct ConfOpts {
     pub max_links: usize,
+    pub min_links: usize,
     pub max_hbfs: usize,
     pub max_triggers: usize,
     /// probability (x/16) that the stream is inflated beyond 100 packets
@@ -43,6 +44,7 @@ impl Default for ConfOpts {
     fn default() -> Self {
         ConfOpts {
             max_links: 12,
+            min_links: 1,
             max_hbfs: 4,
             max_triggers: 5,
             big_16: 2,
@@ -481,7 +483,7 @@ pub fn gen_conf_stream(t0: &mut Tape, o: &ConfOpts) -> ConfStream {
     // global decisions first, from their own region of the tape
     let mut g = t0.fork(64);
     let t = &mut g;
-    let n_links = 1 + t.weighted(&[4, 3, 2, 1, 1, 1, 1, 1, 1, 1, 1, 1][..o.max_links.min(12)]);
+    let n_links = (1 + t.weighted(&[4, 3, 2, 1, 1, 1, 1, 1, 1, 1, 1, 1][..o.max_links.min(12)])).max(o.min_links);
     let big = t.chance(o.big_16, 16);
     let interleave_kind = t.below(3);
     let mut order_tape = t0.fork(2000);
